@@ -7,14 +7,16 @@ def spec(tier):
     q = tier == "quick"
     T = 280 if q else 2500
     obs = parts("R.refs", F, "refs", 16, T, path_timeout=250,
-                what="four-file world (incl. a default-PRIVATE module used first with the same spellings) written with occurrence markers (declarations, dummy-argument lists, i=i+1, total*i - total, x$y, a dummy argument and an internal-procedure dummy shadowing module variables, same spelling in another module, type component with the spelling of a module variable, names inside comments / character literals / literals containing '!' or the other quote): from EVERY occurrence of EVERY entity (cursor at start / middle / end) references, documentHighlight and rename answer exactly the entity's occurrences with exact identifier spans; applying the rename edits changes exactly those identifiers")
+                what="nine-file world (incl. a default-PRIVATE module used first with the same spellings) written with occurrence markers (declarations, dummy-argument lists, i=i+1, total*i - total, x$y, a dummy argument and an internal-procedure dummy shadowing module variables, same spelling in another module, type component with the spelling of a module variable, names inside comments / character literals / literals containing '!' or the other quote): from EVERY occurrence of EVERY entity (cursor at start / middle / end) references, documentHighlight and rename answer exactly the entity's occurrences with exact identifier spans; applying the rename edits changes exactly those identifiers")
     obs += parts("R.matcher", F, "matcher", 16, T, path_timeout=250,
                  what="the occurrence regex built by get_all_references (read from the current source) on all lines of <=4 (quick) / <=5 (thorough) tokens from a 16-token table (name, other case, prefixes/suffixes, $ variants, single-character operators): hits == whole-word occurrences with exact spans")
+    obs += parts("R.refs_worlds", F, "refs_worlds", 16, T, path_timeout=250,
+                 what="the USE/accessibility worlds of lib/world.py (5 accessibility forms x 4 x 6 USE forms symbolic; default PRIVATE, re-export, target module, local/host declarations, second USE enumerated: ~1 900 conforming worlds quick, ~9 400 thorough) x references / documentHighlight: from the declaration of every entity the answer contains the declaration and every use site the reference resolver binds to it, no use site bound to anything else, and is the same from every such use site")
     return dict(
         obligations=obs,
         functions=["serve_references", "serve_rename", "get_all_references", "get_definition", "strip_comment", "find_comment_start", "literal_spans",
                    "expand_name", "get_line_prefix", "change_json", "uri_json"],
-        bounds="81 marked occurrences of 17 entities x 3 cursor positions x 3 methods; matcher: 16^4 (quick) / 16^5 (thorough) token lines",
+        bounds="125 marked occurrences of 30 entities x 3 cursor positions x 3 methods; matcher: 16^4 (quick) / 16^5 (thorough) token lines",
         assumptions=["occurrence oracle = the markers of the source templates (binding decided by hand from the Fortran rules)",
                      "known finding C06-use-rename-clause (renamed USE association) is kept out of the main world and shown by its witness",
                      "requests run concretely per solver-chosen (occurrence, cursor, method)"],
